@@ -1,0 +1,21 @@
+//go:build verif
+
+// Contracts for package configuration, read by the /verif condition generator (govc).
+// Compiled only with -tags verif; adds no behaviour.
+package configuration
+
+func implies(a, b bool) bool { return !a || b }
+
+// SpecAllEmpty: nothing is inserted between characters and no suffix pattern is demanded.
+func SpecAllEmpty(au, aw, su, sw, nu, nw string) bool {
+	return au == "" && aw == "" && su == "" && sw == "" && nu == "" && nw == ""
+}
+
+// New: a missing or unreadable file, and a file that does not decode, both give the empty
+// configuration (all six patterns empty - never a partially filled one).
+//@ contract New
+//@   tags C04
+//@   results r
+//@   checks[C04] unreadable-file-means-empty: implies(called(Open) && resultOf(Open, 1) != nil, SpecAllEmpty(r.Patterns.AntiEvasion.Unix, r.Patterns.AntiEvasion.Windows, r.Patterns.AntiEvasionSuffix.Unix, r.Patterns.AntiEvasionSuffix.Windows, r.Patterns.AntiEvasionNoSpaceSuffix.Unix, r.Patterns.AntiEvasionNoSpaceSuffix.Windows))
+//@   checks[C04] undecodable-file-means-empty: implies(called(Decode) && resultOf(Decode, 0) != nil, SpecAllEmpty(r.Patterns.AntiEvasion.Unix, r.Patterns.AntiEvasion.Windows, r.Patterns.AntiEvasionSuffix.Unix, r.Patterns.AntiEvasionSuffix.Windows, r.Patterns.AntiEvasionNoSpaceSuffix.Unix, r.Patterns.AntiEvasionNoSpaceSuffix.Windows))
+//@   checks[C04,C15] never-writes: fsWrites() == old(fsWrites())
